@@ -78,6 +78,10 @@ func HostileSeeds() []Seed {
 		add("strlit-"+strconv.Quote(s), fmt.Sprintf("a : 'a' ;\nS : a %s | %s S ;\n", q, q))
 	}
 	add("strlit-dquote", "a : 'a' ;\nS : a `\"` ;\n")
+	add("strlit-nul", "a : 'a' ;\nS : a \"\x00\" | \"\x00\" S ;\n")
+	add("strlit-cr", "a : 'a' ;\nS : a `x\ry` ;\n")
+	add("strlit-bom", "a : 'a' ;\nS : a \"\ufeff\" ;\n")
+	add("strlit-tab-vt", "a : 'a' ;\nS : a \"\t\v\" ;\n")
 	add("strlit-rawnl", "a : 'a' ;\nS : a `x\ny` ;\n")
 	// character literals
 	for _, c := range []string{`'\''`, `'\\'`, `'"'`, `'\n'`, `'\x00'`, `'\u2318'`, `'\U0010ffff'`, "'`'", `'%'`, `'{'`, `'}'`, `'\t'`, `'\a'`, `'\377'`, `'é'`, `'\ufffd'`} {
@@ -234,5 +238,46 @@ func Respellings2(toks []Tok, limit int) []Respelling {
 			}
 		}
 	}
+	return out
+}
+
+// StressSeeds: long and deeply nested shapes (termination in reasonable time is part of "always terminates"):
+// runs of nullable multi-alternative groups, deep nesting, wide alternations, long sequences, long bodies.
+func StressSeeds() []Seed {
+	var out []Seed
+	rep := func(s string, n int) string { return strings.Repeat(s, n) }
+	out = append(out,
+		Seed{"nullable-groups-x20", "cmd : '@' " + rep("[ 'a' | 'b' 'c' ] ", 20) + "'!' ;\n"},
+		Seed{"nullable-regdef-x20", "_sw : [ 'a'-'z' ] | [ 'A'-'Z' [ 'A'-'Z' ] ] | { '-' } ;\ncmd : '@' " + rep("_sw ", 20) + "'!' ;\n"},
+		Seed{"nullable-alt-groups-x16", "t : 'x' " + rep("( [ 'a' ] | { 'b' } | [ 'c' 'd' ] ) ", 16) + ";\n"},
+		Seed{"nest-depth-14", "t : " + rep("[ { ( ", 5) + "'a'" + rep(" ) } ]", 5) + " 'b' ;\n"},
+		Seed{"alternation-x60", "t : " + func() string {
+			var a []string
+			for i := 0; i < 60; i++ {
+				a = append(a, fmt.Sprintf("'\\u%04x' 'z'", 0x100+i))
+			}
+			return strings.Join(a, " | ")
+		}() + " ;\n"},
+		Seed{"sequence-x40", "t : " + rep("'a' [ 'b' ] ", 40) + ";\n"},
+		Seed{"body-x30", "a : 'a' ;\nS : " + rep("a ", 30) + "| a S ;\n"},
+		Seed{"alternatives-x40", "a : 'a' ;\nb : 'b' ;\nS : " + func() string {
+			var a []string
+			for i := 1; i <= 40; i++ {
+				a = append(a, rep("a ", i%7+1)+"b")
+			}
+			return strings.Join(a, " | ")
+		}() + " ;\n"},
+		Seed{"nullable-chain-x12", func() string {
+			s := "a : 'a' ;\nS : N1 a ;\n"
+			for i := 1; i <= 12; i++ {
+				if i < 12 {
+					s += fmt.Sprintf("N%d : N%d | empty ;\n", i, i+1)
+				} else {
+					s += fmt.Sprintf("N%d : empty ;\n", i)
+				}
+			}
+			return s
+		}()},
+	)
 	return out
 }
